@@ -3,12 +3,15 @@
 //! observed without any scheduler), and `buffered(max_concurrent)` of concurrent_with_yield / process_files_parallel over gated
 //! operations (kind 20: how many operations have been started after every gate = the sliding window with head-of-line blocking).
 use super::*;
+use zipora::concurrency::pipeline::FilterStage;
 use std::sync::atomic::AtomicBool;
 use std::sync::Mutex;
 use std::task::{Context, Poll, Wake, Waker};
 
 const YIELD: i64 = 100000;
 const CHUNK: i64 = 100001;
+const FILTERED: i64 = 100002;
+type Fb = fn(Vec<i64>) -> ZResult<Vec<i64>>;
 
 struct FlagWake(AtomicBool);
 impl Wake for FlagWake {
@@ -32,9 +35,12 @@ fn drive<T>(fut: &mut Pin<Box<dyn Future<Output = T> + '_>>, log: &TLog, max: us
     None
 }
 
-/// which: 1 process_vec_yielding, 2 run_with_yield, 3 YieldingIterator::for_each, 4 FiberIoUtils::batch_process, 7 YieldingIterator::collect
+/// which: 1 process_vec_yielding, 2 run_with_yield, 3 YieldingIterator::for_each, 4 FiberIoUtils::batch_process, 7 YieldingIterator::collect;
+/// the stages' own process_batch: 8 MapStage (trait default), 9 BatchMapStage without batch function (max_concurrency 4), 10 BatchMapStage
+/// with a batch function, 11 FilterStage (keeps x when x mod 3 != 0)
 pub(super) fn yield_trace_case(cx: &mut Ctx, which: u64, interval: usize, xs: &[i64], force: bool) {
-    let cell = match which { 1 => "CooperativeUtils::process_vec_yielding", 2 => "CooperativeUtils::run_with_yield", 4 => "FiberIoUtils::batch_process", _ => "YieldingIterator" };
+    let cell = match which { 1 => "CooperativeUtils::process_vec_yielding", 2 => "CooperativeUtils::run_with_yield", 4 => "FiberIoUtils::batch_process",
+                             8..=11 => "PipelineStage::process_batch (MapStage / BatchMapStage / FilterStage)", _ => "YieldingIterator" };
     let case = json!({"cell": "yieldtrace", "kind": 19, "which": which, "limit": interval, "ops": xs});
     cx.sum.eval(cell, &format!("yt {} {} {:?}", which, interval, xs), xs.len() >= 2);
     cx.sum.cell_status(cell, "M+S");
@@ -61,6 +67,25 @@ pub(super) fn yield_trace_case(cx: &mut Ctx, which: u64, interval: usize, xs: &[
                     Box::pin(async move { b.into_iter().map(stage).collect() })
                 }).await.ok()
             }),
+            8 => Box::pin(async move {
+                let st = MapStage::new("m".to_string(), move |x: i64| { l2.lock().unwrap().push(x); stage(x) });
+                st.process_batch(xv).await.ok()
+            }),
+            9 => Box::pin(async move {
+                let st = BatchMapStage::<_, Fb>::new("bm".to_string(), move |x: i64| { l2.lock().unwrap().push(x); stage(x) }).with_max_concurrency(4);
+                st.process_batch(xv).await.ok()
+            }),
+            10 => Box::pin(async move {
+                let st = BatchMapStage::with_batch_support("bb".to_string(), stage, move |b: Vec<i64>| -> ZResult<Vec<i64>> {
+                    { let mut g = l2.lock().unwrap(); g.push(CHUNK); g.extend_from_slice(&b); }
+                    b.into_iter().map(stage).collect()
+                });
+                st.process_batch(xv).await.ok()
+            }),
+            11 => Box::pin(async move {
+                let st = FilterStage::new("f".to_string(), move |x: &i64| { l2.lock().unwrap().push(*x); x.rem_euclid(3) != 0 });
+                st.process_batch(xv).await.ok().map(|v: Vec<Option<i64>>| v.into_iter().map(|o| o.unwrap_or(FILTERED)).collect())
+            }),
             _ => Box::pin(async move {
                 let col: Vec<i64> = YieldingIterator::new(xv.into_iter().inspect(move |x| l2.lock().unwrap().push(*x)), interval).collect().await;
                 Some(col)
@@ -68,7 +93,7 @@ pub(super) fn yield_trace_case(cx: &mut Ctx, which: u64, interval: usize, xs: &[
         };
         drive(&mut fut, &lg, max_polls)
     });
-    let want = if which == 7 { Some(xs.to_vec()) } else { seq_map(xs, false) };
+    let want = match which { 7 => Some(xs.to_vec()), 11 => Some(xs.iter().map(|&x| if x.rem_euclid(3) != 0 { x } else { FILTERED }).collect()), _ => seq_map(xs, false) };
     match r {
         Err(p) => cx.sum.fail(cell, None, case, &format!("panicked: {}", p)),
         Ok(None) => cx.sum.fail(cell, None, case, &format!("still pending after {} polls (every suspension had woken the task)", max_polls)),
@@ -181,6 +206,11 @@ pub(super) fn generate(cx: &mut Ctx) {
                     if !thorough && n > 8 && iv > 3 && iv != 16 && iv != n { continue; }
                     yield_trace_case(cx, which, iv, &xs, false);
                 }
+            }
+            // the stages' own process_batch (no interval)
+            for &which in &[8u64, 9, 10, 11] {
+                if which == 11 && fail == 1 { continue; }
+                yield_trace_case(cx, which, 0, &xs, true);
             }
         }
     }
